@@ -2,7 +2,7 @@
 import os, shutil, threading, itertools, random
 import vlib, docs, inject, parsecmp
 from vlib import Sym
-from c19 import result_header, write_docs, nlines_of
+from c19 import result_header, write_docs, nlines_of, parse_dir, expected_positions
 
 YIELD = {"exists", "isfile", "open-w", "close-w", "open-r", "remove", "body"}
 
@@ -152,6 +152,17 @@ def check(ctx):
             (["c.xml", "c.xml"], ("per-thread", [None, [docs.UA, "urn:a", "urn:c"]]))]
     reqs = []; meta = []
     try:
+        # the order of the operations of ONE call is what the model's program counters stand for: a lone call on each file must perform them in
+        # the model's order (side file created only after the XML was read, written line by line, closed, read, removed) - the schedules below
+        # interleave calls at these points
+        d1 = os.path.join(work, "solo"); shutil.rmtree(d1, ignore_errors=True)
+        write_docs(d1, [(n, docs.render(doc, random.Random(1))) for n, doc in files_doc])
+        for n, doc in files_doc:
+            _, tr1, _ = parse_dir(d1, [n], None)
+            got1 = [l for l, fin in tr1 if not fin]; want1 = [e[0] for e in expected_positions(nlines_of(doc))]
+            ctx.record(dict(case="solo-trace", file=n), True, ["solo-trace"])
+            if got1 != want1: ctx.disagree("trace", dict(file=n), got1, want1)
+        shutil.rmtree(d1, ignore_errors=True)
         # a directory parse next to a file parse: the directory call lists the directory at every point of the other call's life
         from opcua_tools.nodeset_parser import parse_xml_dir
         d0 = os.path.join(work, "dirrun")
